@@ -147,3 +147,56 @@
     {
         if n > from { lemma_nz_zero_tail(c, from, n - 1); }
     }
+    // ---- FIPS 204 Algorithm 29 (SampleInBall) as a relation: wit[t] is the stream position of the byte accepted in step t
+    // (i = 256 - tau + t); every byte skipped before it was > i; the polynomial is the fold of the swaps.
+    pub open spec fn sib_sign(s: spec_fn(int) -> u8, t: int) -> i32 {
+        (1 - 2 * (((s(t / 8) as int) / p2(t % 8)) % 2)) as i32
+    }
+    pub open spec fn sib_fold(s: spec_fn(int) -> u8, wit: Seq<int>, tau: int, t: int) -> Seq<i32>
+        decreases t
+    {
+        if t <= 0 { Seq::new(256, |n: int| 0i32) } else {
+            let c = sib_fold(s, wit, tau, t - 1);
+            let i = 256 - tau + (t - 1);
+            let j = s(wit[t - 1]) as int;
+            c.update(i, c[j]).update(j, sib_sign(s, t - 1))
+        }
+    }
+    pub open spec fn sib_step_ok(s: spec_fn(int) -> u8, wit: Seq<int>, tau: int, t: int) -> bool {
+        let i = 256 - tau + t;
+        let lo = if t == 0 { 8 } else { wit[t - 1] + 1 };
+        lo <= wit[t] && (s(wit[t]) as int) <= i && forall|p: int| lo <= p < wit[t] ==> (#[trigger] s(p) as int) > i
+    }
+    pub open spec fn sib_rel(tau: int, s: spec_fn(int) -> u8, c: R) -> bool {
+        exists|wit: Seq<int>| wit.len() == tau && (forall|t: int| 0 <= t < tau ==> #[trigger] sib_step_ok(s, wit, tau, t))
+            && c.0@ == sib_fold(s, wit, tau, tau)
+    }
+    pub proof fn lemma_sib_fold_prefix(s: spec_fn(int) -> u8, w1: Seq<int>, w2: Seq<int>, tau: int, t: int)
+        requires 0 <= t <= w1.len(), w2.len() >= w1.len(), forall|k: int| 0 <= k < t ==> w1[k] == w2[k],
+        ensures sib_fold(s, w1, tau, t) == sib_fold(s, w2, tau, t),
+        decreases t
+    {
+        if t > 0 { lemma_sib_fold_prefix(s, w1, w2, tau, t - 1); }
+    }
+    pub proof fn lemma_u8_shr_bit(b: u8, sh: u8)
+        requires sh < 8,
+        ensures ((b >> sh) & 1u8) as int == ((b as int) / p2(sh as int)) % 2,
+    {
+        lemma2_to64();
+        if sh == 0 { assert(((b >> 0u8) & 1u8) == b % 2u8) by (bit_vector); }
+        if sh == 1 { assert(((b >> 1u8) & 1u8) == (b / 2u8) % 2u8) by (bit_vector); }
+        if sh == 2 { assert(((b >> 2u8) & 1u8) == (b / 4u8) % 2u8) by (bit_vector); }
+        if sh == 3 { assert(((b >> 3u8) & 1u8) == (b / 8u8) % 2u8) by (bit_vector); }
+        if sh == 4 { assert(((b >> 4u8) & 1u8) == (b / 16u8) % 2u8) by (bit_vector); }
+        if sh == 5 { assert(((b >> 5u8) & 1u8) == (b / 32u8) % 2u8) by (bit_vector); }
+        if sh == 6 { assert(((b >> 6u8) & 1u8) == (b / 64u8) % 2u8) by (bit_vector); }
+        if sh == 7 { assert(((b >> 7u8) & 1u8) == (b / 128u8) % 2u8) by (bit_vector); }
+    }
+    // ---- FIPS 204 Algorithm 32 (ExpandA): A[r][s] = RejNTTPoly(rho || IntegerToBytes(s,1) || IntegerToBytes(r,1))
+    pub open spec fn expand_a_seed(rho: Seq<u8>, s: int, r: int) -> Seq<u8> { rho + seq![s as u8] + seq![r as u8] }
+    pub open spec fn expand_a_row_ok<const L: usize>(rho: Seq<u8>, r: int, row: [T; L]) -> bool {
+        forall|s: int| 0 <= s < L ==> rej_ntt_rel(shake128(#[trigger] expand_a_seed(rho, s, r)), row[s])
+    }
+    pub open spec fn expand_a_rel<const K: usize, const L: usize>(rho: Seq<u8>, a: [[T; L]; K]) -> bool {
+        forall|r: int| 0 <= r < K ==> expand_a_row_ok(rho, r, #[trigger] a[r])
+    }
